@@ -448,6 +448,22 @@ def _roundtrip(M, r, localized):
                 vals = list(dig(D, "translations." + key).values())
                 if len(set(v.lower() for v in vals)) != len(vals):
                     return
+    # process-wide week configuration: the weekday written in a full date must still lead back to that date
+    wkcfg = None
+    if dflag != "wd" and any(t in fmt for t in ("dd", "E")) and r.random() < 0.4:   # (the open finding on `d` is classified under the default week only)
+        wkcfg = r.randrange(7)
+        P.week_starts_at(P.WeekDay(wkcfg))
+        P.week_ends_at(P.WeekDay((wkcfg - 1) % 7))
+    try:
+        return _roundtrip_call(M, P, x, kind, loc, fmt, tzf, via_default, localized, mon, esc, zsig, want_fields, dflag, dform, tflag, nd, r)
+    finally:
+        if wkcfg is not None:
+            P.week_starts_at(P.MONDAY)
+            P.week_ends_at(P.SUNDAY)
+
+
+def _roundtrip_call(M, P, x, kind, loc, fmt, tzf, via_default, localized, mon, esc, zsig, want_fields, dflag, dform, tflag, nd, r):
+    D = M.data[loc]
     try:
         if via_default:
             P.set_locale(loc)
